@@ -59,6 +59,10 @@ def coq_build(clean=False, timeout=3000):
     lock = _lock()
     try:
         log = ""
+        from . import translate_schemas
+        err = translate_schemas.regenerate()          # Model/Schemas.v follows /repo's current source
+        if err:
+            log += "translate_schemas: " + err + "\n"
         mk = COQ / "Makefile"
         if clean and mk.exists():
             subprocess.run(["make", "clean"], cwd=COQ, stdout=subprocess.DEVNULL, stderr=subprocess.DEVNULL)
